@@ -1,5 +1,6 @@
 import SctpVerif.Driver.Rq
 import SctpVerif.Driver.GenX
+import SctpVerif.Driver.Reasm
 /-!
 Driver: replays implementation logs (`<comp> <op…> -> <impl result>`) through the L0 models and
 evaluates the executable property predicates on the implementation's results.
@@ -17,6 +18,7 @@ structure Counters where
 
 structure All where
   rq : Rq.St := {}
+  reasm : Reasm.St := {}
   desync : List String := []
   cnt : Counters := {}
 
@@ -30,6 +32,7 @@ def splitArrow (toks : List String) : List String × List String :=
 def stepComp (a : All) (comp : String) (op impl : List String) : All × String × Option String :=
   match comp with
   | "rq" => let (s, r, e) := Rq.step a.rq op impl; ({ a with rq := s }, r, e)
+  | "reasm" => let (s, r, e) := Reasm.step a.reasm op impl; ({ a with reasm := s }, r, e)
   | "gen" => (a, GenX.step op, GenX.pred op impl)
   | _ => (a, "unknown-component", none)
 
